@@ -6,7 +6,8 @@ def main() -> int:
     rep.assumptions = ["the reference semantics (spec/DataModel.tla) is my reading of the documented data model",
                        "regex matching and int()/float() parsing are Python's own, carried as string attributes",
                        "bounded universe (spec/Universe.tla) + seeded random deep types beyond it"]
-    engine_deser.run("C01", rep, exotic=False)
+    # the repaired defect "aggregate field names reserved" must contradict the reference semantics
+    engine_deser.run("C01", rep, exotic=False, negative={"aggnames": ("DispatchEqSequential", "d1")})
     return rep.finish()
 
 
